@@ -114,6 +114,17 @@ def r1_escaping(ctx):
             flat(e.left)
             flat(e.right)
         elif isinstance(e, ast.Call) and A.call_target(e) == (None, 'seg_str'):
+            # first argument: the element list; `ele_list` itself holds escaped values (checked in gen_seg),
+            # anything spliced into it must be safe on its own
+            def items(x):
+                if isinstance(x, ast.BinOp) and isinstance(x.op, ast.Add):
+                    return items(x.left) + items(x.right)
+                if isinstance(x, (ast.List, ast.Tuple)):
+                    return list(x.elts)
+                return [x]
+            for it in items(e.args[0]) if e.args else []:
+                if path_of(it) != 'ele_list':
+                    pieces.append(it)
             for a in e.args[1:]:
                 pieces.append(a)
         else:
